@@ -43,6 +43,12 @@ fn drain<R: Read>(r: &mut R) -> bool {
 
 /// natural consumption of a message: peel, read, verify
 fn consume_message(rec: &mut Rec, m: Message<'_>, keys: &[Kind]) {
+    consume_message_sk(rec, m, keys, None)
+}
+
+/// natural consumption: peel compression (and, when the session key is known, further encryption)
+/// layers, read, verify
+fn consume_message_sk(rec: &mut Rec, m: Message<'_>, keys: &[Kind], sk: Option<&[u8]>) {
     let mut m = m;
     let mut depth = 0;
     loop {
@@ -52,12 +58,19 @@ fn consume_message(rec: &mut Rec, m: Message<'_>, keys: &[Kind]) {
                 Ok(n) => m = n,
                 Err(_) => return,
             }
-            depth += 1;
-            if depth > 20_000 {
-                return;
+        } else if m.is_encrypted() && sk.is_some() {
+            rec.checkpoint("Message::decrypt(inner layer)");
+            let key = sk.map(|k| PlainSessionKey::V6 { key: RawSessionKey::from(&k[..k.len().min(16)]) }).expect("some");
+            match m.decrypt_with_session_key(key) {
+                Ok(n) => m = n,
+                Err(_) => return,
             }
         } else {
             break;
+        }
+        depth += 1;
+        if depth > 20_000 {
+            return;
         }
     }
     rec.checkpoint("Message::read");
@@ -107,7 +120,7 @@ fn open_message(rec: &mut Rec, bytes: &[u8], sk: Option<&[u8]>, keys: &[Kind], t
         rec.checkpoint("Message::decrypt_the_ring");
         let abort_early = mode != 1;
         match m.decrypt_the_ring(ring, abort_early) {
-            Ok((m, _)) => consume_message(rec, m, keys),
+            Ok((m, _)) => consume_message_sk(rec, m, keys, sk),
             Err(_) => {}
         }
     }
@@ -322,9 +335,9 @@ fn nest_compressed(inner: Vec<u8>, depth: usize, alg: u8) -> Vec<u8> {
     cur
 }
 
-fn hostile_inner(t: &mut Tape, rec: &mut Rec) -> Vec<u8> {
+fn hostile_inner(t: &mut Tape, rec: &mut Rec, sk: &[u8]) -> Vec<u8> {
     let lit = wire::new_packet(11, &wire::literal_body(b'b', b"", 0, b"payload"));
-    match t.below(13) {
+    match t.below(15) {
         0 => {
             let d = *t.pick(&[1usize, 10, 31, 32, 33, 100, 1000, 4000]);
             rec.label(format!("inner:compressed-nest-{d}"));
@@ -406,6 +419,42 @@ fn hostile_inner(t: &mut Tape, rec: &mut Rec) -> Vec<u8> {
             rec.label("inner:empty");
             vec![]
         }
+        13 => {
+            // mostly (cheap) compression layers with an encryption layer every k levels
+            let d = *t.pick(&[100usize, 1000, 6000]);
+            let k = *t.pick(&[8usize, 31]);
+            rec.label(format!("inner:compressed-nest-{d}-encrypted-every-{k}"));
+            let mut cur = lit;
+            for i in 0..d {
+                cur = if i % k == k - 1 {
+                    match rc::seipdv2_encrypt(7, 2, 10, &[(i % 251) as u8; 32], &sk[..16], &cur) {
+                        Ok(b) => wire::new_packet(18, &b),
+                        Err(_) => cur,
+                    }
+                } else {
+                    wire::new_packet(8, &[vec![0u8], cur].concat())
+                };
+            }
+            cur
+        }
+        12 => {
+            // a tower of encryption (or alternating encryption / compression) layers under one session key
+            let d = *t.pick(&[2usize, 30, 31, 33, 40, 200, 1200, 3500]);
+            let alternate = t.bool();
+            rec.label(format!("inner:{}-nest-{d}", if alternate { "encrypted+compressed" } else { "encrypted" }));
+            let mut cur = lit;
+            for i in 0..d {
+                cur = if alternate && i % 2 == 1 {
+                    wire::new_packet(8, &[vec![0u8], cur].concat())
+                } else {
+                    match rc::seipdv2_encrypt(7, 2, 10, &[(i % 251) as u8; 32], &sk[..16], &cur) {
+                        Ok(b) => wire::new_packet(18, &b),
+                        Err(_) => cur,
+                    }
+                };
+            }
+            cur
+        }
         11 => {
             rec.label("inner:literal-then-skippable-packets");
             let mut v = if t.bool() { lit.clone() } else { wire::partial_packet(11, &wire::literal_body(b'b', b"", 0, &expand(t.u64(), 700)), &[9], 1).unwrap_or_default() };
@@ -429,7 +478,7 @@ fn hostile_inner(t: &mut Tape, rec: &mut Rec) -> Vec<u8> {
 fn hostile_container_case(t: &mut Tape, rec: &mut Rec) -> CaseResult {
     let sk = expand(t.u64(), 32);
     let class = t.below(6);
-    let inner = hostile_inner(t, rec);
+    let inner = hostile_inner(t, rec, &sk);
     let (msg, what): (Vec<u8>, String) = match class {
         0 | 1 => {
             // SEIPDv2 header octets: one field takes any value
